@@ -1442,8 +1442,8 @@ class RedunSession(Session):
 
 def db_retry(func: Callable) -> Callable:
     """
-    Decorator to automatically retry database operations on OperationalError (and once
-    on IntegrityError, which a concurrent writer of the same record causes).
+    Decorator to automatically retry database operations on OperationalError (and, without
+    delay, on IntegrityError, which a concurrent writer of the same record causes).
 
     This decorator is designed for RedunBackendDb methods that perform database
     queries/writes and may encounter connection disconnects.
@@ -1475,19 +1475,20 @@ def db_retry(func: Callable) -> Callable:
 
     def retry_loop(self: "RedunBackendDb", *args, **kwargs):
         self._db_retries_attempt = 0
-        integrity_retried = False
+        integrity_retries = 0
         while True:
             try:
                 return func(self, *args, **kwargs)
             except IntegrityError:
                 # Another writer on the same database may have inserted the same
                 # content-addressed record between our existence check and our insert.
-                # Retry once: the existence check then finds the record.
+                # Retry (without delay): the existence check then finds the record. Several
+                # records of one operation can collide one after the other.
                 assert self.session
                 self.session.rollback()
-                if integrity_retried:
+                integrity_retries += 1
+                if integrity_retries > self._db_retries:
                     raise
-                integrity_retried = True
             except OperationalError as error:
                 # Restore the database connection to a working state.
                 assert self.session
